@@ -3,8 +3,11 @@
 package lsm
 
 import (
+	"fmt"
 	"os"
+	"time"
 	"path/filepath"
+	"strings"
 	"sync"
 	"sync/atomic"
 
@@ -219,7 +222,23 @@ func (v *VerifLSM) VerifCompact(level int, mode compact.IngestMode) bool {
 	return true
 }
 
-func verifManifestLogEdits(m *manifest.Manager, edits ...manifest.Edit) error { return nil }
+// fault injection and recording for the WAL clean-up kernel (C36)
+var (
+	VerifFailManifest   bool     // the next manifest.LogEdits fails (I/O error)
+	VerifManifestFailed int      // how many did
+	VerifRemovedWAL     []uint32 // segments handed to wal.RemoveSegment
+)
+
+func verifManifestLogEdits(m *manifest.Manager, edits ...manifest.Edit) error {
+	if VerifFailManifest {
+		VerifFailManifest = false
+		VerifManifestFailed++
+		return errVerifManifestIO
+	}
+	return nil
+}
+
+var errVerifManifestIO = os.ErrClosed
 
 func verifWalAppend(m *wal.Manager, payloads ...[]byte) ([]wal.EntryInfo, error) {
 	infos := make([]wal.EntryInfo, len(payloads))
@@ -229,7 +248,10 @@ func verifWalAppend(m *wal.Manager, payloads ...[]byte) ([]wal.EntryInfo, error)
 	return infos, nil
 }
 func verifWalSwitchSegment(m *wal.Manager, id uint32, truncate bool) error { return nil }
-func verifWalRemoveSegment(m *wal.Manager, id uint32) error                { return nil }
+func verifWalRemoveSegment(m *wal.Manager, id uint32) error {
+	VerifRemovedWAL = append(VerifRemovedWAL, id)
+	return nil
+}
 
 // fid <-> table name without fmt/strconv: "<decimal fid>.sst"
 func verifFileNameSSTable(dir string, id uint64) string {
@@ -283,6 +305,7 @@ func VerifOpenLSM(engine string) *VerifLSM {
 	if sym.Symbolic() {
 		utils.VerifSkiplistHeightOne = true
 		verifTables, verifBuilders = nil, nil
+		VerifFailManifest, VerifManifestFailed, VerifRemovedWAL = false, 0, nil
 		opt.MaxLevelNum = verifLevels
 		l := &LSM{option: opt}
 		l.flushMgr = flush.NewManager()
@@ -310,6 +333,11 @@ func VerifOpenLSM(engine string) *VerifLSM {
 	opt.WorkDir = dir
 	// the gate: creating an .sst file blocks while the gate is closed
 	opt.FS = vfs.NewFaultFS(vfs.OSFS{}, func(op vfs.Op, path string) error {
+		if VerifFailManifest && op == vfs.OpFileWrite && strings.HasPrefix(filepath.Base(path), "MANIFEST") {
+			VerifFailManifest = false
+			VerifManifestFailed++
+			return errVerifManifestIO
+		}
 		if filepath.Ext(path) == ".sst" && (op == vfs.OpOpenFile || op == vfs.OpOpen) {
 			verifGateMu.Lock()
 			for !verifFlushGate.Load() {
@@ -352,4 +380,34 @@ func (v *VerifLSM) Close() {
 	_ = v.L.Close()
 	_ = v.wal.Close()
 	_ = os.RemoveAll(v.dir)
+}
+
+// FlushAllExpectingFailure opens the gate and lets the flush worker run until the
+// injected manifest failure has happened and the worker is idle again.
+func (v *VerifLSM) FlushAllExpectingFailure() {
+	verifOpenGate()
+	if sym.Symbolic() {
+		sym.WaitUntil(func() bool { return VerifManifestFailed > 0 })
+	} else {
+		for i := 0; i < 400 && (VerifManifestFailed == 0 || v.L.flushMgr.Stats().Active > 0); i++ {
+			time.Sleep(5 * time.Millisecond)
+		}
+		time.Sleep(20 * time.Millisecond)
+	}
+	verifFlushGate.Store(false)
+	verifGateOpenGhost = false
+}
+
+// WALSegmentGone: has the memtable segment with this id been removed?
+func (v *VerifLSM) WALSegmentGone(id uint32) bool {
+	if sym.Symbolic() {
+		for _, r := range VerifRemovedWAL {
+			if r == id {
+				return true
+			}
+		}
+		return false
+	}
+	_, err := os.Stat(filepath.Join(v.dir, fmt.Sprintf("%05d.wal", id)))
+	return os.IsNotExist(err)
 }
